@@ -62,8 +62,8 @@ PROPS["C06"] = {
 PROPS["C05"] = {
     "test": "TestC05", "level": "exploration",
     "budget": {"quick": 15, "thorough": 300},
-    "rule": "codec layer: reference-framed stream of 1..4 messages (0..2600 bytes) with 0..3 seeded alterations from {bit flip anywhere / in a length / in a tag, truncation, frame drop, duplicate, swap, replay, reflection of the accessory's own frames, frame from another session, header/body splice, junk insertion}, fed to hc Decrypt through a simulated chunking reader; exhaustive single-bit-flip sub-space for streams of one or two frames of <=64 bytes and one 1029-byte message. system layer (C05 part ii) is exercised by the on-path adversary of the C01/C08 worlds. non-trivial = the stream was actually altered; distinct = distinct (lengths, alterations, chunk mode, intact prefix)",
-    "real": CODEC_REAL, "stub": CODEC_STUB,
+    "rule": "codec layer: reference-framed stream of 1..4 messages (0..2600 bytes) with 0..3 seeded alterations from {bit flip anywhere / in a length / in a tag, truncation, frame drop, duplicate, swap, replay, reflection of the accessory's own frames, frame from another session, header/body splice, junk insertion}, fed to hc Decrypt through a simulated chunking reader; exhaustive single-bit-flip sub-space for streams of one or two frames of <=64 bytes and one 1029-byte message. system layer (a quarter of the scenarios): the real transport with a verified controller sending 1..5 PUT requests of 1..3 frames that write brightness 1,2,3,...; while one request is in flight on the simulated network an on-path adversary alters it (bit flip anywhere / in a length / in a tag, truncation, frame drop, duplicate, swap, replay of the first request, reflection of the accessory's own bytes, junk frame); oracle: the remote-update callbacks are 1..j with j no larger than the number of requests that arrived unaltered, and the accessory closes the connection. non-trivial = the stream was actually altered; distinct = distinct (lengths, alterations, chunk mode, intact prefix)",
+    "real": CODEC_REAL + REAL_SYSTEM, "stub": CODEC_STUB + STUB_SYSTEM,
     "assumptions": ["x/crypto chacha20poly1305 is trusted", "after the first reported error the session is considered dead (hap.Connection closes the socket); plaintext released by further Decrypt calls on the same session is not judged at codec level"],
     "level_text": "Seeded fault injection on the ciphertext stream between an independent sender and hc's Decrypt: whatever is released must be a whole-frame prefix of what was sent, ending no later than the first altered frame, and the call consuming the first altered frame must return an error. The single-bit-flip space is enumerated completely for small streams; everything else is sampled.",
     "level_note": "Trusted: x/crypto primitives. Sampling outside the enumerated bit-flip sub-space.",
